@@ -3,7 +3,6 @@
 HOOK_COMMITS = ["7cfbf74", "a872241", "857830e", "501693b"]
 
 _NA = {
-    "C20": "Reproducibility relates two runs of the Rust harnesses whose only possible difference is hidden process state (RandomState seeds, wall clock, scheduling); a Lean model is a pure function of (seed, config), so the theorem would be true for the wrong reason and no code change could break it — see DESIGN.md §7.",
 }
 
 _PENDING = "not yet claimed in this revision: model + theorems + correspondence for it are still being built (DESIGN.md §4 gives the planned theorem); no check is registered, so nothing is asserted about it"
